@@ -10,10 +10,13 @@ def run(tier):
     n = 300 if tier == "quick" else 4000
     client.run_client(PID, tier, rep,
         design_cfgs=[("MC_Client_book.cfg" if tier == "quick" else "MC_Client_book_thorough.cfg", ["StStep", "RtRecv", "SubDrop", "SubUnsubStart"],
-                      "1 call + 1 subscription through every end path; Inv_QuiescentEmpty / Inv_IndexConsistent")],
+                      "1 call + 1 subscription through every end path; Inv_QuiescentEmpty / Inv_IndexConsistent"),
+                     ("MC_Client_abandon.cfg", ["FeAbandon", "StStep", "RtRecv", "RtForward"],
+                      "the same, and the application may give any future up before it returns (timeout, select!): the tables still empty out")],
         asis=[("MC_Client_asis_F13a.cfg", "Inv_QuiescentEmpty", "subscribe id kept after unsubscribe (F13a)"),
               ("MC_Client_asis_F13b.cfg", "Inv_QuiescentEmpty", "reserved unsubscribe id kept after a server-side close (F13b)"),
-              ("MC_Client_asis_F13c.cfg", "Inv_QuiescentEmpty", "reserved unsubscribe id kept after a refused / malformed / duplicate subscribe answer (F13c)")],
+              ("MC_Client_asis_F13c.cfg", "Inv_QuiescentEmpty", "reserved unsubscribe id kept after a refused / malformed / duplicate subscribe answer (F13c)"),
+              ("MC_Client_asis_F17.cfg", "Inv_QuiescentEmpty", "a subscription accepted after its caller gave up is never unsubscribed (F17)")],
         groups=["stream", "tight", "mixed"], nscen=n)
     rep.cov["rule"] = ("design: every interleaving of 1 call + 1 subscription with accepted / refused / malformed / duplicate answers, "
                        "unsubscribe, drop, server close and lag; conformance: in every recorded scenario the harness reads the sizes of "
